@@ -704,37 +704,41 @@ class ConfigInformation:
     def validate(self):
         """Validate a value"""
         if not self._validated:
+            # (set first: guards against cycles; reset if the validation fails)
             self._validated = True
+            try:
+                # Check each argument
+                for k, argument in self.xpmtype.arguments.items():
+                    value = self.values.get(k)
+                    if value is not None:
+                        ConfigInformation._validate_value(value)
+                    elif argument.required:
+                        if not argument.generator:
+                            raise ValueError(
+                                "Value %s is required but missing when building %s at %s"
+                                % (k, self.xpmtype, self._initinfo)
+                            )
 
-            # Check each argument
-            for k, argument in self.xpmtype.arguments.items():
-                value = self.values.get(k)
-                if value is not None:
-                    ConfigInformation._validate_value(value)
-                elif argument.required:
-                    if not argument.generator:
-                        raise ValueError(
-                            "Value %s is required but missing when building %s at %s"
-                            % (k, self.xpmtype, self._initinfo)
+                # Validate pre-tasks
+                for pre_task in self.pre_tasks:
+                    pre_task.__xpm__.validate()
+
+                # Validate init tasks
+                for init_task in self.init_tasks:
+                    init_task.__xpm__.validate()
+
+                # Use __validate__ method
+                if hasattr(self.pyobject, "__validate__"):
+                    try:
+                        self.pyobject.__validate__()
+                    except Exception:
+                        logger.error(
+                            "Error while validating %s at %s", self.xpmtype, self._initinfo
                         )
-
-            # Validate pre-tasks
-            for pre_task in self.pre_tasks:
-                pre_task.__xpm__.validate()
-
-            # Validate init tasks
-            for init_task in self.init_tasks:
-                init_task.__xpm__.validate()
-
-            # Use __validate__ method
-            if hasattr(self.pyobject, "__validate__"):
-                try:
-                    self.pyobject.__validate__()
-                except Exception:
-                    logger.error(
-                        "Error while validating %s at %s", self.xpmtype, self._initinfo
-                    )
-                    raise
+                        raise
+            except Exception:
+                self._validated = False
+                raise
 
     @staticmethod
     def _validate_value(value):
